@@ -8,7 +8,12 @@
 //!   (2 3 term shape' probes writes)   reshape the leaf through source_ref_mut(), then observe (c02/mutate.rs)
 //!   (2 4 shape layout names req)      a user-implemented source with an arbitrary layout claim (c02/interop.rs)
 //!   (2 5 term n0 n1 probes)           2-D view -> MatrixRefTensor -> TensorRefMatrix (c02/interop.rs)
+//!   (2 6 term probes)                 views over zero-sized-element leaves, lengths up to usize::MAX:
+//!                                     constructor outcome, shape and presence only (c16/zst.rs)
 mod build;
+use build as view_build;
+#[path = "c16/zst.rs"]
+mod zst;
 mod fixed;
 mod interop;
 mod mutate;
@@ -27,6 +32,15 @@ pub fn run(args: &[Sx]) -> Sx {
     }
     if op == Some(5) {
         return interop::trip(args);
+    }
+    if op == Some(6) {
+        if args.len() != 3 {
+            return bad_case();
+        }
+        let Some(probes) = args[2].list().and_then(|p| p.iter().map(|x| x.usizes()).collect::<Option<Vec<_>>>()) else {
+            return bad_case();
+        };
+        return zst::zst_case(&args[1], &probes);
     }
     let execute = match op {
         Some(1) => execute as fn(&Sx, &[Vec<usize>], &[(Vec<usize>, i64)], usize) -> Sx,
